@@ -1,0 +1,32 @@
+"""Verification hooks (add-only).  Inactive unless GROUPBY_LIB_VERIF=1 is set in the environment.
+
+ACTIVE           -- module-level guard read by the hook sites
+ROWS_PER_THREAD  -- rows per worker thread used by GroupBy._max_threads_for_numba when ACTIVE
+                    (default 1_000_000 = the library's own constant); a harness may reassign it
+emit(event, ..)  -- append an event to EVENTS (thread-safe, per-process sequence number)
+"""
+import os
+import threading
+
+ACTIVE = os.environ.get("GROUPBY_LIB_VERIF") == "1"
+ROWS_PER_THREAD = int(os.environ.get("GROUPBY_LIB_VERIF_ROWS_PER_THREAD", "1000000"))
+
+EVENTS = []
+_lock = threading.Lock()
+_seq = 0
+
+
+def emit(event, **fields):
+    global _seq
+    if not ACTIVE:
+        return
+    with _lock:
+        _seq += 1
+        EVENTS.append(dict(fields, e=event, seq=_seq))
+
+
+def drain():
+    with _lock:
+        out = list(EVENTS)
+        EVENTS.clear()
+    return out
